@@ -455,7 +455,7 @@ def cause(l, r, cfg, path):
     documents and, in the synchronised modes, then at the pairs a list position of one side may have been
     matched with.  Else any deviation possible anywhere in the pair ("near-")."""
     path = [st for st in (path or []) if st != BAD]
-    pos = positional(cfg)
+    pos = positional(cfg) or plain_eq(l, r)       # a document against itself: a position is matched with itself
     aligned, perm = (1, 1), set()
     for n in range(len(path) + 1):
         nxt = path[n] if n < len(path) else None
